@@ -23,16 +23,36 @@
     * `wrapper_refines`: the `validate_args` wrapper of the pipeline is `Model.Validate.validateAll` wherever that
         shared model applies (no `Array` at a scalar parameter, no `XlDateTime` parameter);
     * `toFx_reference`, `toFx_reference_term`: the address `toFx` computes for a reference token is C03's
-        `fullAddress`, which is also the term `XLFormula` registers for it.
+        `fullAddress`, which is also the term `XLFormula` registers for it;
+    * TRANSPORT of the library theorems to formula texts (last section): `compile_const_formula_partial` (any
+        well-formed formula over constants evaluates — fresh, and after any history — to the context-free value of
+        its compiled tree), `compile_call_formula` / `compile_call_formula_partial` (a call over literals, references
+        and rectangles evaluates to the library's application to the values of the arguments),
+        `compile_nested_formula_partial` with the rules `exprVal_leaf`, `exprVal_call` (nested calls), and the
+        corollaries `X01_LEFT`, `X01_ROUND_partial`, `X01_DEC2BIN`, `X01_SUM_range_partial`, `X01_COUNTIF_partial`,
+        `X01_VLOOKUP_partial`, `X01_NPV`, `X01_DATE_inverse`, `X01_IF_lazy_partial`, `X01_IF_lazy_tree`, each composing
+        the refinement theorem of its property (C17, C16, C19, C14, C15, C20, C18, C10).  `_partial`: rectangles are
+        read completely (at most MAX_EMPTY cells, finding D6); ROUND on whole numbers.  All of them: sources without
+        defined names.
 -/
 import XlVerif.Lemmas.X01
 import XlVerif.Lemmas.X01Compile
 import XlVerif.Lemmas.X01Total
 import XlVerif.Lemmas.X01Wrap
+import XlVerif.Lemmas.X01Transport
+import XlVerif.Lemmas.X01Lib
 import XlVerif.Props.C01
 import XlVerif.Props.C04
 import XlVerif.Props.C05
 import XlVerif.Props.C06
+import XlVerif.Props.C10
+import XlVerif.Props.C14
+import XlVerif.Props.C15
+import XlVerif.Props.C16
+import XlVerif.Props.C17
+import XlVerif.Props.C18
+import XlVerif.Props.C19
+import XlVerif.Props.C20
 namespace XlVerif.Props.X01
 open XlVerif XlVerif.Model.Tokenizer XlVerif.Model.Parser XlVerif.Model.Evaluator XlVerif.Model.Value
 open XlVerif.Model.X01 XlVerif.Lemmas.X01 XlVerif.Spec.C02 XlVerif.Lemmas.C02
@@ -475,5 +495,683 @@ example : WF exprB1 ∧ Spec.C01.inC01 exprB1 = true ∧ RefsOK (NumericOrAbsent
 example : srcLookup wb3.defaultSheet ("Sheet1".toList ++ '!' :: "B1".toList) wb3.cells
     = some (.formula (render Blanks.none exprB1)) := by decide +kernel
 example : (compile wb3).toOption.isSome = true := by decide +kernel
+
+/-! ## transport: the library theorems carried to formula TEXTS
+
+  A workbook source `src` without defined names compiles to `m`; its cell `sheet!coord` holds the text
+  `render b e` of a well-formed formula `e` of the Spec.C02 grammar (`FormulaAt`; `b` places the blanks).
+  `RefsConst src sheet e`: every reference written in `e` — relative or `$`, sheet-qualified (also with a quoted
+  title), a cell or a rectangle — reads cells the source gives a constant or does not mention (blank); a rectangle is
+  read completely (at most MAX_EMPTY cells: finding D6 — this bound is what the `_partial` names refer to). -/
+
+/-- what `evaluate` returns after the history `pre` of `set_cell_value` / `evaluate` / `get_cell_value` calls -/
+abbrev evalAfter (sem : Sem) (fuel : Nat) (m : MState) (pre : List Model.C04.Op) (a : Addr) : Res :=
+  (evaluate sem fuel (Model.C04.run sem fuel m pre).1 a).2.1
+
+/-- **`compile_const_formula`.**  ANY well-formed formula over constants — operators, nested calls, IF / AND / OR,
+    unknown functions, wrong argument counts — evaluates, through `compile` and a fresh evaluator, to the context-free
+    value `pureVal` of the compilation of its expected parse tree; after any history, to that value in the model with
+    the CURRENT inputs. -/
+theorem compile_const_formula_partial (sem : Sem) (e : Expr) (b : Blanks) (hwf : WF e) {src : Source} {m : MState}
+    {sheet coord : Text} (H : FormulaAt src m sheet coord (render b e)) (hrefs : RefsConst src sheet e) (fuel : Nat) :
+    ∃ fx, toFx sheet (m.ranges.map (·.1)) (astOf e) = .ok fx ∧
+      fresh sem (fuel + 2) m (sheet ++ '!' :: coord)
+        = cellRes (sheet ++ '!' :: coord) (render b e).length (pureVal sem m fx) ∧
+      ∀ pre, evalAfter sem (fuel + 2) m pre (sheet ++ '!' :: coord)
+        = cellRes (sheet ++ '!' :: coord) (render b e).length (pureVal sem (Model.C04.inputsAfter m pre) fx) :=
+  formula_cell_value e hwf b H hrefs sem fuel
+
+/-- a call `F(a₁, …, aₙ)` written in a cell: the arguments are scalar literals (every numeral spelling with a finite
+    value, strings, TRUE / FALSE, error literals) and references to constants -/
+structure CallAt (src : Source) (m : MState) (sheet coord : Text) (b : Blanks) (a : Bool) (f : Text)
+    (args : List Expr) : Prop where
+  wf : WF (.call a f args)
+  lits : LitsOK (.call a f args)
+  leaves : ∀ x ∈ args, IsLeaf x = true
+  cell : FormulaAt src m sheet coord (render b (.call a f args))
+  consts : RefsConst src sheet (.call a f args)
+
+/-- `f` (any case, optional `_xlfn.`) names the registered function `id` = `fn`, which takes `n` arguments and is not
+    one of the lazily evaluated IF / AND / OR -/
+structure StrictFn (f : Text) (id : Nat) (fn : Gen.Func) (n : Nat) : Prop where
+  index : funcIndex (callName f) = some id
+  entry : funcAt id = some fn
+  arity : arityCheck fn.params n = .ok
+  notIF : fn.name ≠ nameIF
+  notAND : fn.name ≠ nameAND
+  notOR : fn.name ≠ nameOR
+
+/-- **`compile_call_formula_partial`.**  The cell holding `render b (F(a₁…aₙ))` evaluates to the library's
+    application of `F` — `sem.app id`, for `libSem` the `validate_args` wrapper around the body model
+    (`libSem_call_body` / `libSem_call_aggregate`) — to the values of the arguments: the Spec value of a literal, the
+    constant of a referenced cell (blank if absent), the row-major array of a rectangle.  Fresh evaluator: the values
+    the source gives; after any history: the current values in the model. -/
+theorem compile_call_formula_partial (sem : Sem) {src : Source} {m : MState} {sheet coord : Text} {b : Blanks}
+    {a : Bool} {f : Text} {args : List Expr} (C : CallAt src m sheet coord b a f args)
+    {id : Nat} {fn : Gen.Func} (F : StrictFn f id fn args.length) (fuel : Nat) :
+    fresh sem (fuel + 2) m (sheet ++ '!' :: coord)
+      = cellRes (sheet ++ '!' :: coord) (render b (.call a f args)).length
+          (resOfAppR (sem.app id (args.map (leafVal src sheet)))) ∧
+    ∀ pre, evalAfter sem (fuel + 2) m pre (sheet ++ '!' :: coord)
+      = cellRes (sheet ++ '!' :: coord) (render b (.call a f args)).length
+          (resOfAppR (sem.app id (args.map (leafValM (Model.C04.inputsAfter m pre) sheet)))) := by
+  obtain ⟨hwf, hl, hleaf, H, hrefs⟩ := C
+  obtain ⟨hid, hfn, har, n1, n2, n3⟩ := F
+  have hname := callName_eq hid hfn
+  have hwfs := (WFs_iff args).mp hwf.2
+  have hls := (LitsOKs_iff args).mp (by simpa [LitsOK] using hl)
+  have hreg := registered_of_cell _ hwf b H
+  obtain ⟨fxs, hfxs, hlen, hvals⟩ := leaves_valM H.compiled H.noNames sheet H.sheetOK sem args
+    (fun x hx => ⟨hleaf x hx, hwfs x hx, hls x hx,
+      fun r hr => hreg r (by simp only [refsOf]; exact mem_refsOfL.mpr ⟨x, hx, hr⟩)⟩)
+  obtain ⟨fx, hfx, hfresh, hhist⟩ := formula_cell_value _ hwf b H hrefs sem fuel
+  have hfx' : toFx sheet (m.ranges.map (·.1)) (astOf (.call a f args)) = .ok (.app id fxs) := by
+    simp only [astOf, toFx, fnName, hfxs]
+    rw [callFx_app f fxs id fn hid hfn (by rw [hlen]; exact har) (by rw [hname]; exact n1) (by rw [hname]; exact n2)
+      (by rw [hname]; exact n3)]
+  rw [hfx'] at hfx
+  cases hfx
+  constructor
+  · rw [hfresh, pureVal_app sem m id fxs _ (hvals m rfl)]
+    have : args.map (leafValM m sheet) = args.map (leafVal src sheet) := by
+      apply List.map_congr_left
+      intro x hx
+      exact leafValM_src H.compiled H.noNames sheet x ((RefsConstL_iff src sheet args).mp (by simpa [RefsConst] using hrefs) x hx)
+    rw [this]
+  · intro pre
+    show (evaluate sem (fuel + 2) (Model.C04.run sem (fuel + 2) m pre).1 (sheet ++ '!' :: coord)).2.1 = _
+    rw [hhist pre, pureVal_app sem _ id fxs _ (hvals _ (inputsAfter_ranges pre m))]
+
+/-- **`compile_call_formula`** (full strength): when the references among the arguments are cell references — no
+    bound on anything — to cells the source gives a constant or does not mention. -/
+theorem compile_call_formula (sem : Sem) {src : Source} {m : MState} {sheet coord : Text} (b : Blanks)
+    (a : Bool) (f : Text) (args : List Expr) (hwf : WF (.call a f args)) (hl : LitsOK (.call a f args))
+    (hleaf : ∀ x ∈ args, IsLeaf x = true) (H : FormulaAt src m sheet coord (render b (.call a f args)))
+    (hcells : ∀ r ∈ refsOfL args, r.last = none ∧ ConstSrc src (Model.C03.fullAddress r.denoted sheet))
+    {id : Nat} {fn : Gen.Func} (F : StrictFn f id fn args.length) (fuel : Nat) :
+    fresh sem (fuel + 2) m (sheet ++ '!' :: coord)
+      = cellRes (sheet ++ '!' :: coord) (render b (.call a f args)).length
+          (resOfAppR (sem.app id (args.map (leafVal src sheet)))) ∧
+    ∀ pre, evalAfter sem (fuel + 2) m pre (sheet ++ '!' :: coord)
+      = cellRes (sheet ++ '!' :: coord) (render b (.call a f args)).length
+          (resOfAppR (sem.app id (args.map (leafValM (Model.C04.inputsAfter m pre) sheet)))) := by
+  refine compile_call_formula_partial sem ⟨hwf, hl, hleaf, H, ?_⟩ F fuel
+  simp only [RefsConst]
+  rw [RefsConstL_iff]
+  intro x hx
+  have hlx := hleaf x hx
+  cases x with
+  | ref r =>
+    obtain ⟨h1, h2⟩ := hcells r (mem_refsOfL.mpr ⟨_, hx, by simp [refsOf]⟩)
+    simp only [RefsConst, RefConst, h1]
+    exact h2
+  | num n p => simp [RefsConst]
+  | str s => simp [RefsConst]
+  | bool v => simp [RefsConst]
+  | err c => simp [RefsConst]
+  | neg e => simp [IsLeaf] at hlx
+  | bin o l r => simp [IsLeaf] at hlx
+  | paren e => simp [IsLeaf] at hlx
+  | call a f args => simp [IsLeaf] at hlx
+
+/-- what `libSem` applies for a function with a body model: the `validate_args` wrapper around it -/
+theorem libSem_call_body (id : Nat) (fn : Gen.Func) (body : List Model.Validate.VArg → XR V) (vs : List V)
+    (hfn : funcAt id = some fn) (hin : isInfixName fn.name = false) (hpre : isPrefixName fn.name = false)
+    (hagg : aggregateOf x01Ext (String.ofList fn.name) = none)
+    (hb : bodyOf x01Ext (String.ofList fn.name) = some body) :
+    libSem.app id vs = ofXR id (wrapX x01Ext fn body vs) :=
+  appOf_body x01Ext id fn body vs hfn hin hpre hagg hb
+
+/-- … and for the aggregates (SUM, AVERAGE, MIN, MAX, COUNT, …), whose models take the arguments as they are -/
+theorem libSem_call_aggregate (id : Nat) (fn : Gen.Func) (g : List V → XR V) (vs : List V)
+    (hfn : funcAt id = some fn) (hin : isInfixName fn.name = false) (hpre : isPrefixName fn.name = false)
+    (hagg : aggregateOf x01Ext (String.ofList fn.name) = some g) :
+    libSem.app id vs = ofXR id (g vs) :=
+  appOf_agg x01Ext id fn g vs hfn hin hpre hagg
+
+/-! ### nested calls, by induction on the formula -/
+
+/-- a literal or reference argument of the formula `e` of the cell has its value, in every model with the ranges of
+    `m` (`m` itself, and the current inputs after any history) -/
+theorem exprVal_leaf (sem : Sem) {src : Source} {m : MState} {sheet coord : Text} (e : Expr) (hwf : WF e) (b : Blanks)
+    (H : FormulaAt src m sheet coord (render b e)) (x : Expr) (hsub : ∀ r ∈ refsOf x, r ∈ refsOf e)
+    (hleaf : IsLeaf x = true) (hx : WF x) (hlx : LitsOK x) (m' : MState) (hr : m'.ranges = m.ranges) :
+    ExprVal sem m' sheet x (leafValM m' sheet x) := by
+  obtain ⟨fx, h1, h2⟩ := leaf_valM H.compiled H.noNames sheet H.sheetOK sem x hleaf hx hlx
+    (fun r hr => registered_of_cell e hwf b H r (hsub r hr))
+  exact ⟨fx, by rw [hr]; exact h1, h2 m' hr⟩
+
+/-- … which, for a reference to constants, is the value the source gives -/
+theorem exprVal_leaf_src (sem : Sem) {src : Source} {m : MState} {sheet coord : Text} (e : Expr) (hwf : WF e) (b : Blanks)
+    (H : FormulaAt src m sheet coord (render b e)) (x : Expr) (hsub : ∀ r ∈ refsOf x, r ∈ refsOf e)
+    (hleaf : IsLeaf x = true) (hx : WF x) (hlx : LitsOK x) (hcx : RefsConst src sheet x) :
+    ExprVal sem m sheet x (leafVal src sheet x) := by
+  rw [← leafValM_src H.compiled H.noNames sheet x hcx]
+  exact exprVal_leaf sem e hwf b H x hsub hleaf hx hlx m rfl
+
+/-- a call of a strict registered function whose arguments have values has the value the library computes -/
+theorem exprVal_call {sem : Sem} {m : MState} {sheet : Text} (a : Bool) (f : Text) {args : List Expr} {vs : List V}
+    (hargs : ArgsVal sem m sheet args vs) {id : Nat} {fn : Gen.Func} (F : StrictFn f id fn args.length)
+    (w : V) (hw : sem.app id vs = .val w) : ExprVal sem m sheet (.call a f args) w := by
+  obtain ⟨hid, hfn, har, n1, n2, n3⟩ := F
+  have hname := callName_eq hid hfn
+  exact call_exprVal a f hargs id fn hid hfn har (by rw [hname]; exact n1) (by rw [hname]; exact n2)
+    (by rw [hname]; exact n3) w hw
+
+/-- **`compile_nested_formula_partial`.**  A formula over constants that HAS a value by the rules `exprVal_leaf`,
+    `exprVal_call`, `ExprVal.paren`, `ArgsVal.cons` (calls nested to any depth) evaluates to it — fresh, and after any
+    history (with the rules applied in the model of the current inputs). -/
+theorem compile_nested_formula_partial (sem : Sem) (e : Expr) (b : Blanks) (hwf : WF e) {src : Source} {m : MState}
+    {sheet coord : Text} (H : FormulaAt src m sheet coord (render b e)) (hrefs : RefsConst src sheet e) (fuel : Nat) :
+    (∀ v, ExprVal sem m sheet e v → fresh sem (fuel + 2) m (sheet ++ '!' :: coord) = .val v) ∧
+    (∀ pre v, ExprVal sem (Model.C04.inputsAfter m pre) sheet e v →
+      evalAfter sem (fuel + 2) m pre (sheet ++ '!' :: coord) = .val v) := by
+  obtain ⟨fx, hfx, hfresh, hhist⟩ := formula_cell_value e hwf b H hrefs sem fuel
+  constructor
+  · rintro v ⟨fx', h1, h2⟩
+    rw [hfx] at h1; cases h1
+    rw [hfresh, h2]; rfl
+  · rintro pre v ⟨fx', h1, h2⟩
+    rw [inputsAfter_ranges pre m, hfx] at h1; cases h1
+    show (evaluate sem (fuel + 2) (Model.C04.run sem (fuel + 2) m pre).1 (sheet ++ '!' :: coord)).2.1 = _
+    rw [hhist pre, h2]; rfl
+
+/-- the value of a call cell, when the library returns a value -/
+theorem call_cell_val {src : Source} {m : MState} {sheet coord : Text} {b : Blanks}
+    {a : Bool} {f : Text} {args : List Expr} (C : CallAt src m sheet coord b a f args)
+    {id : Nat} {fn : Gen.Func} (F : StrictFn f id fn args.length) (fuel : Nat) (vs : List V)
+    (hvs : args.map (leafVal src sheet) = vs) (w : V) (hw : libSem.app id vs = .val w) :
+    fresh libSem (fuel + 2) m (sheet ++ '!' :: coord) = .val w := by
+  rw [(compile_call_formula_partial libSem C F fuel).1, hvs, hw]; rfl
+
+set_option maxRecDepth 100000
+
+/-! ### the per-property corollaries -/
+
+theorem strict_LEFT {f : Text} (h : funcIndex (callName f) = some (idOf "LEFT")) : StrictFn f (idOf "LEFT") fLEFT 2 :=
+  ⟨h, rfl, rfl, by decide, by decide, by decide⟩
+
+/-- **`X01_LEFT`** (C17 `LEFT_refines`): the text `LEFT(x, y)` — any spelling of the name, any blanks — over a text
+    and a number, written or in constant cells, evaluates to the first `int(y)` characters; an error value when
+    `int(y) < 0`. -/
+theorem X01_LEFT {src : Source} {m : MState} {sheet coord : Text} {b : Blanks} {a : Bool} {f : Text} {x y : Expr}
+    (C : CallAt src m sheet coord b a f [x, y]) (hf : funcIndex (callName f) = some (idOf "LEFT"))
+    (s : List Char) (k : Num) (hx : leafVal src sheet x = .s (.text s)) (hy : leafVal src sheet y = .s (.num k))
+    (fuel : Nat) :
+    ∃ r, fresh libSem (fuel + 2) m (sheet ++ '!' :: coord) = .val (.s r) ∧
+      (match Spec.C17.left s (Model.C17.pyInt k) with
+       | some t => r = .text t
+       | none => ∃ c, r = .err c) := by
+  have happ := LEFT_app x01Ext s k
+  have href := Props.C17.LEFT_refines s k
+  cases hL : Model.C17.LEFT s k with
+  | ok t =>
+    rw [hL] at happ href
+    refine ⟨.text t, call_cell_val C (strict_LEFT hf) fuel _ (by simp [hx, hy]) _ happ, ?_⟩
+    rw [← href]; rfl
+  | error c =>
+    rw [hL] at happ href
+    refine ⟨.err c, call_cell_val C (strict_LEFT hf) fuel _ (by simp [hx, hy]) _ happ, ?_⟩
+    rw [← href]; exact ⟨c, rfl⟩
+
+theorem strict_ROUND {f : Text} (h : funcIndex (callName f) = some (idOf "ROUND")) :
+    StrictFn f (idOf "ROUND") fROUND 2 :=
+  ⟨h, rfl, rfl, by decide, by decide, by decide⟩
+
+/-- **`X01_ROUND_partial`** (C16 `ROUND_refines`): `ROUND(x, d)` over WHOLE numbers `z`, `d` (|d| ≤ 400) is `z`
+    rounded half away from zero at the decimal position `d`.  (Partial: a first argument with a fractional part goes
+    through `decOfNum`, the shortest-repr decimal of the double, whose agreement with the rational value is not
+    proved here.) -/
+theorem X01_ROUND_partial {src : Source} {m : MState} {sheet coord : Text} {b : Blanks} {a : Bool} {f : Text}
+    {x y : Expr} (C : CallAt src m sheet coord b a f [x, y]) (hf : funcIndex (callName f) = some (idOf "ROUND"))
+    (z d : Int) (hd : d.natAbs ≤ 400) (hx : leafVal src sheet x = .s (.num (.int z)))
+    (hy : leafVal src sheet y = .s (.num (.int d))) (v : Model.C16.RVal)
+    (hv : Model.C16.ROUND ⟨decide (z < 0), z.natAbs, 0⟩ (.int d) = .val v) (fuel : Nat) :
+    fresh libSem (fuel + 2) m (sheet ++ '!' :: coord)
+      = .val (.s (.num (.flt (Spec.C16.round (Model.C16.Dec.toRat ⟨decide (z < 0), z.natAbs, 0⟩) d)))) := by
+  have happ := ROUND_app_int x01Ext z d hd v hv
+  rw [Props.C16.ROUND_refines _ _ v hv] at happ
+  exact call_cell_val C (strict_ROUND hf) fuel _ (by simp [hx, hy]) _ happ
+
+theorem strict_DEC2BIN {f : Text} (h : funcIndex (callName f) = some (idOf "DEC2BIN")) :
+    StrictFn f (idOf "DEC2BIN") fDEC2BIN 1 :=
+  ⟨h, rfl, rfl, by decide, by decide, by decide⟩
+
+/-- **`X01_DEC2BIN`** (C19 `impl_meets_spec`): `DEC2BIN(x)` over a whole number is what the ten-digit two's-complement
+    statement demands: its text, or its error value. -/
+theorem X01_DEC2BIN {src : Source} {m : MState} {sheet coord : Text} {b : Blanks} {a : Bool} {f : Text} {x : Expr}
+    (C : CallAt src m sheet coord b a f [x]) (hf : funcIndex (callName f) = some (idOf "DEC2BIN"))
+    (z : Int) (hx : leafVal src sheet x = .s (.num (.int z))) (fuel : Nat) :
+    (∀ t, Spec.C19.want "DEC2BIN".toList (.num (.int z)) none = .val (.text t) →
+      fresh libSem (fuel + 2) m (sheet ++ '!' :: coord) = .val (.s (.text t))) ∧
+    (∀ c, Spec.C19.want "DEC2BIN".toList (.num (.int z)) none = .err c →
+      fresh libSem (fuel + 2) m (sheet ++ '!' :: coord) = .val (.s (.err c))) := by
+  have hmeets := Props.C19.impl_meets_spec "DEC2BIN".toList (.num (.int z)) none
+  constructor
+  · intro t ht
+    rw [ht] at hmeets
+    exact call_cell_val C (strict_DEC2BIN hf) fuel _ (by simp [hx]) _ (DEC2BIN_app x01Ext z t hmeets)
+  · intro c hc
+    rw [hc] at hmeets
+    exact call_cell_val C (strict_DEC2BIN hf) fuel _ (by simp [hx]) _ (DEC2BIN_app_err x01Ext z c hmeets)
+
+theorem strict_SUM {f : Text} (h : funcIndex (callName f) = some (idOf "SUM")) : StrictFn f (idOf "SUM") fSUM 1 :=
+  ⟨h, rfl, rfl, by decide, by decide, by decide⟩
+
+/-- **`X01_SUM_range_partial`** (C14 `aggregate_refines`): `SUM(rectangle)` over constants of the aggregate domain
+    (numbers, empty cells, non-numeric texts) is the sum of the numbers addressed.  (Partial: rectangles of at most
+    MAX_EMPTY cells — `RefsConst`.) -/
+theorem X01_SUM_range_partial {src : Source} {m : MState} {sheet coord : Text} {b : Blanks} {a : Bool} {f : Text}
+    {x : Expr} (C : CallAt src m sheet coord b a f [x]) (hf : funcIndex (callName f) = some (idOf "SUM"))
+    (rows : List (List S)) (hx : leafVal src sheet x = .arr rows)
+    (hdom : Lemmas.C14.ArgOK (Lemmas.C14.InDomB x01Ext) (.range rows)) (fuel : Nat) :
+    ∃ k : Num, fresh libSem (fuel + 2) m (sheet ++ '!' :: coord) = .val (.s (.num k)) ∧
+      k.toRat = Spec.C14.sum rows.flatten := by
+  have href := (Props.C14.aggregate_refines (ext := x01Ext) (as := [.range rows])
+    (by intro a ha; simp only [List.mem_singleton] at ha; subst ha; exact hdom)).1
+  simp only [List.map_cons, List.map_nil, Lemmas.C14.conc] at href
+  cases hS : Model.C14.SUM x01Ext [.arr (rows.map fun r => r.map Model.C14.typedPy)] with
+  | error c => rw [hS] at href; simp [Except.map] at href
+  | ok k =>
+    rw [hS] at href
+    refine ⟨k, call_cell_val C (strict_SUM hf) fuel _ (by simp [hx]) _ (SUM_app_range x01Ext rows k hS), ?_⟩
+    simpa [Except.map, Spec.C14.addressed, Spec.C14.A.cells] using href
+
+theorem strict_COUNTIF {f : Text} (h : funcIndex (callName f) = some (idOf "COUNTIF")) :
+    StrictFn f (idOf "COUNTIF") fCOUNTIF 2 :=
+  ⟨h, rfl, rfl, by decide, by decide, by decide⟩
+
+/-- **`X01_COUNTIF_partial`** (C15 `countif_spec`): `COUNTIF(rectangle, "criterion")` is the number of cells for which
+    the criterion holds.  (Partial: rectangles of at most MAX_EMPTY cells.) -/
+theorem X01_COUNTIF_partial {src : Source} {m : MState} {sheet coord : Text} {b : Blanks} {a : Bool} {f : Text}
+    {x y : Expr} (C : CallAt src m sheet coord b a f [x, y]) (hf : funcIndex (callName f) = some (idOf "COUNTIF"))
+    (rows : List (List S)) (s : List Char) (hx : leafVal src sheet x = .arr rows)
+    (hy : leafVal src sheet y = .s (.text s))
+    (op : Spec.C15.Op) (k : Spec.C09.Cls) (hcrit : Spec.C15.critOfText s = some (op, k))
+    (hdate : x01Ext.dateParse (Spec.C15.splitOp s).2 = none)
+    (hcls : ∀ c ∈ rows.flatten, Spec.C09.cls c ≠ none) (fuel : Nat) :
+    fresh libSem (fuel + 2) m (sheet ++ '!' :: coord)
+      = .val (.s (.num (.int (Spec.C15.countif op k (rows.flatten.filterMap Spec.C09.cls))))) :=
+  call_cell_val C (strict_COUNTIF hf) fuel _ (by simp [hx, hy]) _
+    (COUNTIF_app x01Ext rows s _ (Props.C15.countif_spec x01Ext s op k hcrit hdate rows.flatten hcls))
+
+theorem strict_VLOOKUP {f : Text} (h : funcIndex (callName f) = some (idOf "VLOOKUP")) :
+    StrictFn f (idOf "VLOOKUP") fVLOOKUP 3 :=
+  ⟨h, rfl, rfl, by decide, by decide, by decide⟩
+
+/-- **`X01_VLOOKUP_partial`** (C15 `vlookup_spec`): `VLOOKUP(key, table, col)` over a classified key, a rectangular
+    table of constants with classified key cells and a whole column index is the statement's exact lookup.
+    (Partial: tables of at most MAX_EMPTY cells; the three-argument form.) -/
+theorem X01_VLOOKUP_partial {src : Source} {m : MState} {sheet coord : Text} {b : Blanks} {a : Bool} {f : Text}
+    {x y z : Expr} (C : CallAt src m sheet coord b a f [x, y, z])
+    (hf : funcIndex (callName f) = some (idOf "VLOOKUP"))
+    (key : S) (k : Spec.C09.Cls) (hk : Spec.C09.cls key = some k) (rows : List (List S)) (c : Int)
+    (hx : leafVal src sheet x = .s key) (hy : leafVal src sheet y = .arr rows)
+    (hz : leafVal src sheet z = .s (.num (.int c)))
+    (sp : List (Spec.C09.Cls × List S)) (hkr : Lemmas.C15.KeyedRows rows sp) (w : Nat)
+    (hw : ∀ row ∈ rows, row.length = w) (hne : rows ≠ []) (fuel : Nat) :
+    fresh libSem (fuel + 2) m (sheet ++ '!' :: coord)
+      = .val (.s (match Spec.C15.vlookup k sp w c with
+                  | .value v => v
+                  | .na => .err .na
+                  | .colError => .err .value)) := by
+  have hkey : ∀ e, key ≠ .err e := by
+    intro e he; subst he; simp [Spec.C09.cls] at hk
+  have hspec := Props.C15.vlookup_spec hk rows sp hkr w hw hne c
+  refine call_cell_val C (strict_VLOOKUP hf) fuel _ (by simp [hx, hy, hz]) _ (VLOOKUP_app x01Ext key hkey rows c _ ?_)
+  rw [hspec]
+  cases Spec.C15.vlookup k sp w c <;> rfl
+
+/-- **`X01_NPV`** (C20 `npv_def`): `NPV(r, c₁, …, cₙ)` over numbers, `n ≥ 1`, `r ≠ −1`, is `Σ cᵢ / (1+r)^i`. -/
+theorem X01_NPV {src : Source} {m : MState} {sheet coord : Text} {b : Blanks} {a : Bool} {f : Text}
+    {args : List Expr} (C : CallAt src m sheet coord b a f args) (hf : funcIndex (callName f) = some (idOf "NPV"))
+    (r : Num) (cs : List Num) (hvals : args.map (leafVal src sheet) = .s (.num r) :: cs.map fun c => V.s (.num c))
+    (hne : cs ≠ []) (hr : r.toRat ≠ -1) (fuel : Nat) :
+    fresh libSem (fuel + 2) m (sheet ++ '!' :: coord)
+      = .val (.s (.num (.flt (Spec.C20.npv r.toRat (cs.map Num.toRat))))) := by
+  have hlen : args.length = cs.length + 1 := by
+    have := congrArg List.length hvals
+    simpa using this
+  have har : arityCheck fNPV.params args.length = .ok := by
+    rw [hlen]
+    cases cs.length <;> rfl
+  exact call_cell_val C ⟨hf, rfl, har, by decide, by decide, by decide⟩ fuel _ hvals _
+    (NPV_app x01Ext r cs _ (Props.C20.npv_def r.toRat (cs.map Num.toRat) (by simpa using hne) hr))
+
+theorem strict_serial {f : Text} (name : String) (h : funcIndex (callName f) = some (idOf name))
+    (hfn : funcAt (idOf name) = some (fSerial name "date")) (hn : name.toList ≠ nameIF ∧ name.toList ≠ nameAND ∧
+      name.toList ≠ nameOR) : StrictFn f (idOf name) (fSerial name "date") 1 :=
+  ⟨h, hfn, rfl, hn.1, hn.2.1, hn.2.2⟩
+
+/-- **`X01_DATE_inverse`** (C18 `date_inverse`, `year_spec`, `month_spec`, `day_spec`): the NESTED formula
+    `DATE(YEAR(x), MONTH(y), DAY(z))` over (written or referenced) occurrences of one serial number `n` is the
+    date `n`. -/
+theorem X01_DATE_inverse {src : Source} {m : MState} {sheet coord : Text} (b : Blanks)
+    (a0 a1 a2 a3 : Bool) (f0 f1 f2 f3 : Text) (x y z : Expr)
+    (hwf : WF (.call a0 f0 [.call a1 f1 [x], .call a2 f2 [y], .call a3 f3 [z]]))
+    (hl : LitsOK x ∧ LitsOK y ∧ LitsOK z) (hleaf : IsLeaf x = true ∧ IsLeaf y = true ∧ IsLeaf z = true)
+    (H : FormulaAt src m sheet coord (render b (.call a0 f0 [.call a1 f1 [x], .call a2 f2 [y], .call a3 f3 [z]])))
+    (hrefs : RefsConst src sheet x ∧ RefsConst src sheet y ∧ RefsConst src sheet z)
+    (h0 : funcIndex (callName f0) = some (idOf "DATE")) (h1 : funcIndex (callName f1) = some (idOf "YEAR"))
+    (h2 : funcIndex (callName f2) = some (idOf "MONTH")) (h3 : funcIndex (callName f3) = some (idOf "DAY"))
+    (n : Int) (hn : Lemmas.C18Fn.IsSerial n) (hx : leafVal src sheet x = .s (.num (.int n)))
+    (hy : leafVal src sheet y = .s (.num (.int n))) (hz : leafVal src sheet z = .s (.num (.int n))) (fuel : Nat) :
+    fresh libSem (fuel + 2) m (sheet ++ '!' :: coord) = .val (.s (.date (n : Rat))) := by
+  have hwx : WF x := hwf.2.1.2.1
+  have hwy : WF y := hwf.2.2.1.2.1
+  have hwz : WF z := hwf.2.2.2.1.2.1
+  have hrc : RefsConst src sheet (.call a0 f0 [.call a1 f1 [x], .call a2 f2 [y], .call a3 f3 [z]]) := by
+    simp only [RefsConst, RefsConstL, and_true]
+    exact hrefs
+  have ex : ExprVal libSem m sheet x (.s (.num (.int n))) := by
+    rw [← hx]
+    exact exprVal_leaf_src libSem _ hwf b H x (by intro r hr; simp [refsOf, refsOfL, hr]) hleaf.1 hwx hl.1 hrefs.1
+  have ey : ExprVal libSem m sheet y (.s (.num (.int n))) := by
+    rw [← hy]
+    exact exprVal_leaf_src libSem _ hwf b H y (by intro r hr; simp [refsOf, refsOfL, hr]) hleaf.2.1 hwy hl.2.1 hrefs.2.1
+  have ez : ExprVal libSem m sheet z (.s (.num (.int n))) := by
+    rw [← hz]
+    exact exprVal_leaf_src libSem _ hwf b H z (by intro r hr; simp [refsOf, refsOfL, hr]) hleaf.2.2 hwz hl.2.2 hrefs.2.2
+  have eY := exprVal_call a1 f1 (ArgsVal.cons ex (ArgsVal.nil _ _ _))
+    (strict_serial "YEAR" h1 rfl (by decide)) _ (YEAR_app x01Ext (.int n) _ (Lemmas.C18Fn.year_spec n hn))
+  have eM := exprVal_call a2 f2 (ArgsVal.cons ey (ArgsVal.nil _ _ _))
+    (strict_serial "MONTH" h2 rfl (by decide)) _ (MONTH_app x01Ext (.int n) _ (Lemmas.C18Fn.month_spec n hn))
+  have eD := exprVal_call a3 f3 (ArgsVal.cons ez (ArgsVal.nil _ _ _))
+    (strict_serial "DAY" h3 rfl (by decide)) _ (DAY_app x01Ext (.int n) _ (Lemmas.C18Fn.day_spec n hn))
+  have hser : Model.C18.datetimeToNumber ⟨Lemmas.C18Fn.dayOf n, 0⟩ = (n : Rat) := by
+    have h := Props.C18.date_inverse_serial n hn
+    rw [Props.C18.date_inverse n hn] at h
+    simpa [Lemmas.C18Fn.serialRes, Model.C18.Res.map] using h
+  have eDATE := exprVal_call a0 f0 (ArgsVal.cons eY (ArgsVal.cons eM (ArgsVal.cons eD (ArgsVal.nil _ _ _))))
+    (⟨h0, rfl, rfl, by decide, by decide, by decide⟩ : StrictFn f0 (idOf "DATE") fDATE 3) _
+    (DATE_app x01Ext _ _ _ _ (Props.C18.date_inverse n hn))
+  rw [hser] at eDATE
+  exact (compile_nested_formula_partial libSem _ b hwf H hrc fuel).1 _ eDATE
+
+/-! ### IF is lazy -/
+
+/-- the `.iff` arm of the evaluator IS C10's `IF_` over the three sub-evaluations -/
+theorem evalFx_iff_IF {σ : Type} (st : Store σ) (sem : Sem) (ce : Ctx σ → Addr → Ctx σ × Res) (c : Ctx σ)
+    (cond t e : Fx) :
+    evalFx st sem ce c (.iff cond t e)
+      = Model.C10.IF_ sem.truth (fun s => evalFx st sem ce s cond) (fun s => evalFx st sem ce s t)
+          (fun s => evalFx st sem ce s e) c := by
+  rw [evalFx]
+  simp only [Model.C10.IF_]
+  rcases evalFx st sem ce c cond with ⟨c', r⟩
+  cases r <;> rfl
+
+/-- **`X01_IF_lazy_tree`** (C10 `if_lazy`, composed): in the tree `compile` makes of `IF(c, t, e)`, under `libSem`,
+    the branch the condition does not select can be replaced by ANY tree — one that raises, closes a cycle, reads
+    other cells — without changing the result or the evaluator's state. -/
+theorem X01_IF_lazy_tree {σ : Type} (st : Store σ) (ce : Ctx σ → Addr → Ctx σ × Res) (c c1 : Ctx σ) (cond t e : Fx)
+    (v : V) (hc : evalFx st libSem ce c cond = (c1, .val v)) :
+    (Spec.C10.truthV v = .yes → ∀ e', evalFx st libSem ce c (.iff cond t e) = evalFx st libSem ce c (.iff cond t e')) ∧
+    (Spec.C10.truthV v = .no → ∀ t', evalFx st libSem ce c (.iff cond t e) = evalFx st libSem ce c (.iff cond t' e)) := by
+  have h := Props.C10.if_lazy (fun s => evalFx st libSem ce s cond) (fun s => evalFx st libSem ce s t)
+    (fun s => evalFx st libSem ce s e) c c1 v hc
+  refine ⟨fun hy e' => ?_, fun hn t' => ?_⟩
+  · rw [evalFx_iff_IF, evalFx_iff_IF]; exact h.1 hy _
+  · rw [evalFx_iff_IF, evalFx_iff_IF]; exact h.2.1 hn _
+
+/-- `callFx` of IF with three arguments -/
+theorem callFx_if3 (f : Text) (hf : callName f = nameIF) (c t e : Fx) : callFx f [c, t, e] = .iff c t e := by
+  obtain ⟨i, fn, hi, hfi, _, _, _, h3, _⟩ := if_registered
+  simp [callFx, hf, hi, hfi, h3]
+
+/-- **`X01_IF_lazy_partial`**: the TEXT `IF(c, t, e)` over constants evaluates to the value of the selected branch —
+    whatever the other branch is (any well-formed formula over constants: a call that raises, an unknown function, a
+    wrong argument count) —, and to the value of the condition when that is an error value. -/
+theorem X01_IF_lazy_partial (sem : Sem) {src : Source} {m : MState} {sheet coord : Text} (b : Blanks) (a : Bool)
+    (f : Text) (c t e : Expr) (hf : callName f = nameIF) (hwf : WF (.call a f [c, t, e]))
+    (H : FormulaAt src m sheet coord (render b (.call a f [c, t, e])))
+    (hrefs : RefsConst src sheet (.call a f [c, t, e])) (vc : V) (hc : ExprVal sem m sheet c vc) (fuel : Nat) :
+    (sem.truth vc = some true → ∀ vt, ExprVal sem m sheet t vt →
+      fresh sem (fuel + 2) m (sheet ++ '!' :: coord) = .val vt) ∧
+    (sem.truth vc = some false → ∀ ve, ExprVal sem m sheet e ve →
+      fresh sem (fuel + 2) m (sheet ++ '!' :: coord) = .val ve) ∧
+    (sem.truth vc = none → fresh sem (fuel + 2) m (sheet ++ '!' :: coord) = .val vc) := by
+  obtain ⟨fx, hfx, hfresh, _⟩ := formula_cell_value _ hwf b H hrefs sem fuel
+  obtain ⟨c', hc1, hc2⟩ := hc
+  simp only [astOf, astsOf, toFx, toFxList, hc1] at hfx
+  cases ht : toFx sheet (m.ranges.map (·.1)) (astOf t) with
+  | error x => rw [ht] at hfx; simp [fnName] at hfx
+  | ok t' =>
+    rw [ht] at hfx
+    cases he : toFx sheet (m.ranges.map (·.1)) (astOf e) with
+    | error x => rw [he] at hfx; simp [fnName] at hfx
+    | ok e' =>
+      rw [he] at hfx
+      simp only [fnName, Except.ok.injEq] at hfx
+      rw [callFx_if3 f hf] at hfx
+      subst hfx
+      rw [hfresh]
+      refine ⟨fun htr vt hvt => ?_, fun htr ve hve => ?_, fun htr => ?_⟩
+      · obtain ⟨t'', h1, h2⟩ := hvt
+        rw [ht] at h1; cases h1
+        simp [pureVal, hc2, htr, h2, cellRes]
+      · obtain ⟨e'', h1, h2⟩ := hve
+        rw [he] at h1; cases h1
+        simp [pureVal, hc2, htr, h2, cellRes]
+      · simp [pureVal, hc2, htr, cellRes]
+
+/-! ### non-vacuity of the transport theorems: concrete formula texts, in the kernel -/
+
+/-- a workbook with a second sheet (quoted title in references), constants of several types, and one formula text
+    for each transport theorem -/
+def wbT : Source :=
+  { cells := [("My Data!A1".toList, .const (.text "hello".toList)),
+              ("Sheet1!A2".toList, .const (.num (.int 2))),
+              ("Sheet1!A3".toList, .const (.num (.int 2500))),
+              ("Sheet1!A4".toList, .const (.num (.int 5))),
+              ("Sheet1!A5".toList, .const (.num (.int 44000))),
+              ("Sheet1!A6".toList, .const (.num (.int (-3)))),
+              ("Sheet1!C1".toList, .const (.num (.int 1))),
+              ("Sheet1!D1".toList, .const (.text "x".toList)),
+              ("Sheet1!C2".toList, .const (.num (.flt (5 / 2)))),
+              ("Sheet1!E1".toList, .const (.num (.int 100))),
+              ("Sheet1!E2".toList, .const (.num (.int 50))),
+              ("Sheet1!F1".toList, .const (.text "a".toList)),
+              ("Sheet1!G1".toList, .const (.num (.int 10))),
+              ("Sheet1!F2".toList, .const (.text "b".toList)),
+              ("Sheet1!G2".toList, .const (.num (.int 20))),
+              ("Sheet1!B1".toList, .formula "=left('My Data'!$A$1,A2)".toList),
+              ("Sheet1!B2".toList, .formula "=ROUND(A3,A6)".toList),
+              ("Sheet1!B3".toList, .formula "=_xlfn.DEC2BIN(A4)".toList),
+              ("Sheet1!B4".toList, .formula "=SUM(C1:D2)".toList),
+              ("Sheet1!B5".toList, .formula "=COUNTIF(C1:D2,\">1\")".toList),
+              ("Sheet1!B6".toList, .formula "=NPV(0.25,E1,E2)".toList),
+              ("Sheet1!B7".toList, .formula "=DATE(YEAR(A5),MONTH(A5),DAY(A5))".toList),
+              ("Sheet1!B8".toList, .formula "=IF(TRUE,A2,NOSUCH(1,2))".toList),
+              ("Sheet1!B9".toList, .formula "=VLOOKUP(\"b\",F1:G2,2)".toList),
+              ("Sheet1!B10".toList, .formula "=@LEFT(\"abc\",2)".toList),
+              ("Sheet1!B11".toList, .formula "= Left( 'My Data'!$A$1 ,\n A2 )".toList)] }
+
+def evalAll (src : Source) (as : List String) : Option (List Res) :=
+  match compile src with
+  | .ok m => some (as.map fun a => fresh libSem 50 m a.toList)
+  | .error _ => none
+
+/-- every formula text of `wbT`, through tokenizer, parser, `compile`, evaluator and library, in the kernel:
+    `X01_LEFT` (B1, B11), `X01_ROUND_partial` (B2), `X01_DEC2BIN` (B3), `X01_SUM_range_partial` (B4),
+    `X01_COUNTIF_partial` (B5), `X01_NPV` (B6), `X01_DATE_inverse` (B7), `X01_IF_lazy_partial` (B8: the unselected
+    branch calls an unknown function), `X01_VLOOKUP_partial` (B9), `compile_call_formula` (B10) -/
+example : evalAll wbT ["Sheet1!B1", "Sheet1!B2", "Sheet1!B3", "Sheet1!B4", "Sheet1!B5", "Sheet1!B6", "Sheet1!B7",
+      "Sheet1!B8", "Sheet1!B9", "Sheet1!B10", "Sheet1!B11"]
+  = some [.val (.s (.text "he".toList)), .val (.s (.num (.flt 3000))), .val (.s (.text "101".toList)),
+          .val (.s (.num (.flt (7 / 2)))), .val (.s (.num (.int 1))), .val (.s (.num (.flt 112))),
+          .val (.s (.date 44000)), .val (.s (.num (.int 2))), .val (.s (.num (.int 20))),
+          .val (.s (.text "ab".toList)), .val (.s (.text "he".toList))] := by decide +kernel
+
+example : (compile wbT).toOption.isSome = true := by decide +kernel
+
+/-- `=left('My Data'!$A$1,A2)` -/
+def eB1 : Expr := .call false "left".toList
+  [.ref { sheet := .quoted "My Data".toList, first := { colAbs := true, col := ['A'], rowAbs := true, row := [1] } },
+   .ref { first := { col := ['A'], row := [2] } }]
+
+example : render Blanks.none eB1 = "=left('My Data'!$A$1,A2)".toList := by decide
+
+theorem cellAt_wbT {m : MState} (hc : compile wbT = .ok m) (coord : String) (text : Text)
+    (h : srcLookup wbT.defaultSheet ("Sheet1".toList ++ '!' :: coord.toList) wbT.cells = some (.formula text))
+    (hcoord : coord.toList.contains '!' = false) : FormulaAt wbT m "Sheet1".toList coord.toList text :=
+  ⟨hc, rfl, by decide, hcoord, h⟩
+
+/-- **`X01_LEFT` instantiated**: its hypotheses hold for the text of `wbT`'s B1, and it yields the value -/
+example (m : MState) (hc : compile wbT = .ok m) (fuel : Nat) :
+    fresh libSem (fuel + 2) m "Sheet1!B1".toList = .val (.s (.text "he".toList)) := by
+  have h1 : srcLookup wbT.defaultSheet (Model.C03.fullAddress
+      (Ref.denoted { sheet := .quoted "My Data".toList, first := { colAbs := true, col := ['A'], rowAbs := true, row := [1] } })
+      "Sheet1".toList) wbT.cells = some (.const (.text "hello".toList)) := by decide +kernel
+  have h2 : srcLookup wbT.defaultSheet (Model.C03.fullAddress
+      (Ref.denoted { first := { col := ['A'], row := [2] } }) "Sheet1".toList) wbT.cells
+      = some (.const (.num (.int 2))) := by decide +kernel
+  have C : CallAt wbT m "Sheet1".toList "B1".toList Blanks.none false "left".toList
+      [.ref { sheet := .quoted "My Data".toList, first := { colAbs := true, col := ['A'], rowAbs := true, row := [1] } },
+       .ref { first := { col := ['A'], row := [2] } }] :=
+    { wf := by
+        refine ⟨by unfold NameWF; decide, ?_⟩
+        simp [WF, WFs, Ref.WF, SheetQ.WF, Cell.WF, AllDigits]
+      lits := by simp [LitsOK, LitsOKs]
+      leaves := by simp [IsLeaf]
+      cell := cellAt_wbT hc "B1" _ (by decide +kernel) (by decide)
+      consts := by
+        simp only [RefsConst, RefsConstL, RefConst, ConstSrc, h1, h2, and_self] }
+  obtain ⟨r, hr, hspec⟩ := X01_LEFT C (by decide +kernel) "hello".toList (.int 2)
+    (by simp only [leafVal, refVal, srcCellVal, h1]) (by simp only [leafVal, refVal, srcCellVal, h2]) fuel
+  have : Spec.C17.left "hello".toList (Model.C17.pyInt (.int 2)) = some "he".toList := by decide
+  rw [this] at hspec
+  subst hspec
+  exact hr
+
+/-- a Boolean form of `ConstSrc`, to decide it on concrete sources -/
+def constSrcB (src : Source) (a : Text) : Bool :=
+  match srcLookup src.defaultSheet a src.cells with
+  | some (.formula _) => false
+  | _ => true
+
+theorem constSrc_of_b {src : Source} {a : Text} (h : constSrcB src a = true) : ConstSrc src a := by
+  unfold constSrcB at h
+  unfold ConstSrc
+  generalize srcLookup src.defaultSheet a src.cells = o at h ⊢
+  rcases o with _ | (v | t) <;> simp_all
+
+/-- **`X01_SUM_range_partial` instantiated** on `=SUM(C1:D2)` (numbers, a text, a cell the source does not mention) -/
+example (m : MState) (hc : compile wbT = .ok m) (fuel : Nat) :
+    ∃ k : Num, fresh libSem (fuel + 2) m "Sheet1!B4".toList = .val (.s (.num k)) ∧ k.toRat = 7 / 2 := by
+  have hres : Model.C03.resolveRanges (Model.C03.fullAddress
+      (Ref.denoted { first := { col := ['C'], row := [1] }, last := some { col := ['D'], row := [2] } })
+      "Sheet1".toList) = .val ("Sheet1".toList, [["Sheet1!C1".toList, "Sheet1!D1".toList],
+        ["Sheet1!C2".toList, "Sheet1!D2".toList]]) := by decide +kernel
+  have C : CallAt wbT m "Sheet1".toList "B4".toList Blanks.none false "SUM".toList
+      [.ref { first := { col := ['C'], row := [1] }, last := some { col := ['D'], row := [2] } }] :=
+    { wf := by
+        refine ⟨by unfold NameWF; decide, ?_⟩
+        simp [WF, WFs, Ref.WF, SheetQ.WF, Cell.WF, AllDigits]
+      lits := by simp [LitsOK, LitsOKs]
+      leaves := by simp [IsLeaf]
+      cell := cellAt_wbT hc "B4" _ (by decide +kernel) (by decide)
+      consts := by
+        simp only [RefsConst, RefsConstL, RefConst, and_true]
+        intro s mat h
+        rw [hres] at h
+        cases h
+        refine ⟨fun a ha => constSrc_of_b ?_, by decide⟩
+        have hall : (List.flatten [["Sheet1!C1".toList, "Sheet1!D1".toList],
+            ["Sheet1!C2".toList, "Sheet1!D2".toList]]).all (constSrcB wbT) = true := by decide +kernel
+        exact List.all_eq_true.mp hall a ha }
+  obtain ⟨k, hk, hsum⟩ := X01_SUM_range_partial C (by decide +kernel)
+    [[.num (.int 1), .text "x".toList], [.num (.flt (5 / 2)), .blank]] (by decide +kernel)
+    (by
+      refine ⟨⟨2, by simp⟩, ?_⟩
+      intro r hr x hx
+      simp only [List.mem_cons, List.not_mem_nil, or_false] at hr
+      rcases hr with rfl | rfl <;> simp only [List.mem_cons, List.not_mem_nil, or_false] at hx <;>
+        rcases hx with rfl | rfl
+      · exact Or.inr trivial
+      · exact Or.inr (by show textNumber x01Ext "x".toList = NumR.xl Code.value; decide +kernel)
+      · exact Or.inr trivial
+      · exact Or.inl rfl) fuel
+  refine ⟨k, hk, ?_⟩
+  rw [hsum]
+  decide +kernel
+
+/-- **`X01_DATE_inverse` instantiated** on the nested `=DATE(YEAR(A5),MONTH(A5),DAY(A5))` -/
+example (m : MState) (hc : compile wbT = .ok m) (fuel : Nat) :
+    fresh libSem (fuel + 2) m "Sheet1!B7".toList = .val (.s (.date 44000)) := by
+  have h5 : srcLookup wbT.defaultSheet (Model.C03.fullAddress
+      (Ref.denoted { first := { col := ['A'], row := [5] } }) "Sheet1".toList) wbT.cells
+      = some (.const (.num (.int 44000))) := by decide +kernel
+  have hrc : RefsConst wbT "Sheet1".toList (.ref { first := { col := ['A'], row := [5] } }) := by
+    simp only [RefsConst, RefConst, ConstSrc, h5]
+  have hv : leafVal wbT "Sheet1".toList (.ref { first := { col := ['A'], row := [5] } }) = .s (.num (.int 44000)) := by
+    simp only [leafVal, refVal, srcCellVal, h5]
+  have := X01_DATE_inverse (src := wbT) (m := m) (sheet := "Sheet1".toList) (coord := "B7".toList) Blanks.none
+    false false false false "DATE".toList "YEAR".toList "MONTH".toList "DAY".toList
+    (.ref { first := { col := ['A'], row := [5] } }) (.ref { first := { col := ['A'], row := [5] } })
+    (.ref { first := { col := ['A'], row := [5] } })
+    (by
+      refine ⟨by unfold NameWF; decide, ⟨by unfold NameWF; decide, ?_⟩, ⟨by unfold NameWF; decide, ?_⟩,
+        ⟨by unfold NameWF; decide, ?_⟩, trivial⟩ <;>
+      simp [WF, WFs, Ref.WF, SheetQ.WF, Cell.WF, AllDigits])
+    (by simp [LitsOK]) (by simp [IsLeaf]) (cellAt_wbT hc "B7" _ (by decide +kernel) (by decide))
+    ⟨hrc, hrc, hrc⟩ (by decide +kernel) (by decide +kernel) (by decide +kernel) (by decide +kernel)
+    44000 (by decide) hv hv hv fuel
+  simpa using this
+
+/-- **`X01_IF_lazy_partial` instantiated** on `=IF(TRUE,A2,NOSUCH(1,2))`: the unselected branch calls an unknown
+    function (a KeyError if it were evaluated) -/
+example (m : MState) (hc : compile wbT = .ok m) (fuel : Nat) :
+    fresh libSem (fuel + 2) m "Sheet1!B8".toList = .val (.s (.num (.int 2))) := by
+  have h2 : srcLookup wbT.defaultSheet (Model.C03.fullAddress
+      (Ref.denoted { first := { col := ['A'], row := [2] } }) "Sheet1".toList) wbT.cells
+      = some (.const (.num (.int 2))) := by decide +kernel
+  have hwf : WF (.call false "IF".toList [.bool true, .ref { first := { col := ['A'], row := [2] } },
+      .call false "NOSUCH".toList [.num { ip := [1] } false, .num { ip := [2] } false]]) := by
+    refine ⟨by unfold NameWF; decide, trivial, ?_, ⟨by unfold NameWF; decide, ?_⟩, trivial⟩ <;>
+    simp [WF, WFs, Ref.WF, SheetQ.WF, Cell.WF, AllDigits, NumLit.WF, NumLit.fdigits]
+  have H := cellAt_wbT hc "B8" (render Blanks.none (.call false "IF".toList [.bool true,
+      .ref { first := { col := ['A'], row := [2] } },
+      .call false "NOSUCH".toList [.num { ip := [1] } false, .num { ip := [2] } false]])) (by decide +kernel) (by decide)
+  have hrc : RefsConst wbT "Sheet1".toList (.call false "IF".toList [.bool true,
+      .ref { first := { col := ['A'], row := [2] } },
+      .call false "NOSUCH".toList [.num { ip := [1] } false, .num { ip := [2] } false]]) := by
+    simp only [RefsConst, RefsConstL, RefConst, ConstSrc, h2, and_self]
+  have hcond : ExprVal libSem m "Sheet1".toList (.bool true) (.s (.bool true)) :=
+    exprVal_leaf_src libSem _ hwf Blanks.none H (.bool true) (by simp [refsOf]) rfl trivial trivial trivial
+  have hthen : ExprVal libSem m "Sheet1".toList (.ref { first := { col := ['A'], row := [2] } }) (.s (.num (.int 2))) := by
+    have := exprVal_leaf_src libSem _ hwf Blanks.none H (.ref { first := { col := ['A'], row := [2] } })
+      (by intro r hr; simpa [refsOf, refsOfL] using hr) rfl
+      (by simp [WF, Ref.WF, SheetQ.WF, Cell.WF, AllDigits]) trivial
+      (by simp only [RefsConst, RefConst, ConstSrc, h2])
+    simpa only [leafVal, refVal, srcCellVal, h2] using this
+  exact (X01_IF_lazy_partial libSem Blanks.none false "IF".toList _ _ _ (by decide +kernel) hwf H hrc _ hcond fuel).1
+    (by rfl) _ hthen
+
+/-- **`compile_call_formula` instantiated** on `=@LEFT("abc",2)` (written arguments only; a leading `@`) -/
+example (m : MState) (hc : compile wbT = .ok m) (fuel : Nat) :
+    fresh libSem (fuel + 2) m "Sheet1!B10".toList
+      = cellRes "Sheet1!B10".toList 15 (resOfAppR (libSem.app (idOf "LEFT") [.s (.text "abc".toList), .s (.num (.int 2))])) := by
+  have := (compile_call_formula libSem (src := wbT) (m := m) (sheet := "Sheet1".toList) (coord := "B10".toList)
+    Blanks.none true "LEFT".toList [.str "abc".toList, .num { ip := [2] } false]
+    (by
+      refine ⟨by unfold NameWF; decide, trivial, ?_, trivial⟩
+      simp [WF, NumLit.WF, NumLit.fdigits, AllDigits])
+    (by simp only [LitsOK, LitsOKs, and_true, true_and]; unfold Lemmas.C01.LitFinite; decide +kernel)
+    (by simp [IsLeaf]) (cellAt_wbT hc "B10" _ (by decide +kernel) (by decide))
+    (by intro r hr; simp [refsOfL, refsOf] at hr) (strict_LEFT (by decide +kernel)) fuel).1
+  refine this.trans ?_
+  have hlen : (render Blanks.none (.call true "LEFT".toList [.str "abc".toList, .num { ip := [2] } false])).length = 15 := by
+    decide
+  have hv : leafVal wbT "Sheet1".toList (.num { ip := [2] } false) = .s (.num (.int 2)) := by decide +kernel
+  simp only [List.map_cons, List.map_nil, hlen, leafVal]
+  rfl
+
+/-- after a history — evaluate B1, then `set_cell_value('Sheet1!A2', 3)` — B1 is LEFT of the CURRENT inputs
+    (`compile_call_formula_partial`, second part) -/
+example : (match compile wbT with
+    | .ok m => some (evalAfter libSem 50 m [.eval "Sheet1!B1".toList, .set "Sheet1!A2".toList (.s (.num (.int 3)))]
+        "Sheet1!B1".toList)
+    | .error _ => none) = some (.val (.s (.text "hel".toList))) := by decide +kernel
 
 end XlVerif.Props.X01
